@@ -257,6 +257,57 @@ def laws(chk, tier):
                 pass   # any error is acceptable ("P / 0 is an error")
 
 
+def route_equivalence(chk):
+    """every public route to the same operation gives bit-identical bounds: operator / numpy ufunc (either operand order) / explicit method.
+    The operator route is the one compared with the Coq model above; the others are tied to it here."""
+    from pyuncertainnumber.pba.pbox_abc import Staircase
+    import operator
+    rng = chk.rng
+    for kind in ("pos", "neg", "straddle", "touch", "steps"):
+        X = pbx.gen_bounds(rng, 200, kind, dy=False)
+        x = Staircase(np.array(X[0]), np.array(X[1]))
+        for nk in NUM_KINDS:
+            for c in ((2, -3) if nk in ("int", "npint") else (0.5, -1.5)):
+                cc = mk_number(nk, c)
+                routes = {
+                    "add": [("x + c", lambda: x + cc), ("np.add(x, c)", lambda: np.add(x, cc)), ("x.add(c)", lambda: x.add(cc)), ("c + x", lambda: cc + x), ("np.add(c, x)", lambda: np.add(cc, x))],
+                    "sub": [("x - c", lambda: x - cc), ("np.subtract(x, c)", lambda: np.subtract(x, cc)), ("x.sub(c)", lambda: x.sub(cc))],
+                    "rsub": [("c - x", lambda: cc - x), ("np.subtract(c, x)", lambda: np.subtract(cc, x)), ("(-x) + c", lambda: (-x) + cc)],
+                    "mul": [("x * c", lambda: x * cc), ("np.multiply(x, c)", lambda: np.multiply(x, cc)), ("x.mul(c)", lambda: x.mul(cc)), ("c * x", lambda: cc * x), ("np.multiply(c, x)", lambda: np.multiply(cc, x))],
+                    "div": [("x / c", lambda: x / cc), ("np.true_divide(x, c)", lambda: np.true_divide(x, cc)), ("x.div(c)", lambda: x.div(cc))],
+                }
+                if kind in ("pos", "neg"):
+                    routes["rdiv"] = [("c / x", lambda: cc / x), ("np.true_divide(c, x)", lambda: np.true_divide(cc, x)), ("c * x.reciprocal()", lambda: cc * x.reciprocal())]
+                for name, rs in routes.items():
+                    outs = []
+                    for label, f in rs:
+                        try:
+                            r = f()
+                            outs.append((label, (np.asarray(r.left, dtype=float).tobytes(), np.asarray(r.right, dtype=float).tobytes()) if hasattr(r, "left") else "returned " + type(r).__name__))
+                        except Exception as e:
+                            outs.append((label, "raises " + type(e).__name__))
+                        chk.count("route-" + name, key=("route", name, label, kind, nk, c))
+                    for label, o in outs[1:]:
+                        if o != outs[0][1]:
+                            chk.report(f"Pbox.route:{name}:{nk}", f"{label} differs from {outs[0][0]} (c = {c!r} as {nk}, {kind} p-box): " +
+                                       (o if isinstance(o, str) else "different bounds") + (" vs " + outs[0][1] if isinstance(outs[0][1], str) else ""),
+                                       {"kind": "route", "X": X, "c": c, "number_kind": nk, "routes": [outs[0][0], label]})
+        un = [("exp", np.exp, x.exp), ("reciprocal", np.reciprocal, x.reciprocal)] if kind in ("pos", "neg") else [("exp", np.exp, x.exp)]
+        if kind == "pos":
+            un += [("log", np.log, x.log), ("sqrt", np.sqrt, x.sqrt)]
+        for name, uf, meth in un:
+            outs = []
+            for label, f in ((f"x.{name}()", meth), (f"np.{name}(x)", lambda: uf(x))):
+                try:
+                    r = f()
+                    outs.append((np.asarray(r.left, dtype=float).tobytes(), np.asarray(r.right, dtype=float).tobytes()) if hasattr(r, "left") else "returned " + type(r).__name__)
+                except Exception as e:
+                    outs.append("raises " + type(e).__name__)
+                chk.count("route-" + name, key=("route", name, label, kind))
+            if outs[0] != outs[1]:
+                chk.report(f"Pbox.route:{name}", f"np.{name}(x) differs from x.{name}() on a {kind} p-box", {"kind": "route", "X": X, "routes": [name]})
+
+
 def body(chk):
     pbx.patch_fast_moments()
     pr = chk.do_proofs()
@@ -277,6 +328,7 @@ def body(chk):
         if why:
             chk.report(f"Pbox.{c[0]}:{c[2]}:{pbx.sign_of(*c[1])}", why, {"kind": "oracle", "op": c[0], "X": c[1], "number_kind": c[2], "c": c[3], "observed": o[:1] + (o[2:3] if o[0] != "ok" else ())})
     laws(chk, chk.tier)
+    route_equivalence(chk)
     chk.sample({"op": cases[0][0], "c": cases[0][3], "number_kind": cases[0][2], "X_left_head": cases[0][1][0][:3], "impl": (outs[0][0], outs[0][1][:3] if outs[0][0] == "ok" else outs[0][1:])})
     chk.sample({"op": cases[5][0], "c": cases[5][3], "kind": cases[5][4]})
     for i in bad[:3]:
